@@ -7,8 +7,371 @@ namespace Yalafi
 
 variable (T : PTables)
 
+/-! ### the postcondition of `expandSequence` relative to the entry state -/
+
+/-- postcondition of `SpecSeq` for entry state `st` -/
+def SeqQ (nroot : Nat) (st : PState) (envStop : Option Str) (r : List Tok × Buf) (st' : PState) : Prop :=
+  Good T nroot st st' ∧ BL T st.latex.length r.1 ∧ BL T st.latex.length r.2 ∧
+    (envStop = none → OL T st.latex.length r.1)
+
+theorem Post_ite {α} (c : Prop) [Decidable c] (x y : M α) (st : PState) (Q : α → PState → Prop)
+    (h1 : c → Post (x st) Q) (h2 : ¬ c → Post (y st) Q) : Post ((if c then x else y) st) Q := by
+  by_cases h : c
+  · rw [if_pos h]; exact h1 h
+  · rw [if_neg h]; exact h2 h
+
+theorem Good_refl (nroot : Nat) (st : PState) (hg : G T nroot st) : Good T nroot st st :=
+  ⟨hg, rfl, rfl⟩
+
+/-- the recursive call of the loop, from a state reached by a `Good` step -/
+theorem seq_cont {nroot fuel : Nat} (IH : SpecSeq T nroot fuel) {st st1 : PState}
+    (hg : Good T nroot st st1) (buf : Buf) (envStop : Option Str) (out : List Tok)
+    (hb : BL T st.latex.length buf) (ho : OL T st.latex.length out) :
+    Post (expandSequence T fuel buf envStop out st1) (SeqQ T nroot st envStop) := by
+  have h1 : st1.latex.length = st.latex.length := by rw [hg.2.1]
+  have h := IH buf envStop out st1 hg.1 (h1 ▸ hb) (h1 ▸ ho)
+  refine Post_mono _ _ _ h ?_
+  rintro r s ⟨⟨g, sm⟩, a, b, c⟩
+  rw [h1] at a b c
+  exact ⟨⟨g, sm.1.trans hg.2.1, sm.2.trans hg.2.2⟩, a, b, c⟩
+
+theorem OL_snoc (n : Nat) (out : List Tok) (t : Tok) (ho : OL T n out) (ht : OTok T n t) :
+    OL T n (out ++ [t]) := by
+  refine (OL_append T n out [t]).2 ⟨ho, ?_⟩
+  intro x hx
+  rw [List.mem_singleton] at hx
+  exact hx ▸ ht
+
+theorem OL_snoc2 (n : Nat) (out : List Tok) (t u : Tok) (ho : OL T n out) (ht : OTok T n t) (hu : OTok T n u) :
+    OL T n (out ++ [t, u]) := by
+  refine (OL_append T n out [t, u]).2 ⟨ho, ?_⟩
+  intro x hx
+  simp only [List.mem_cons, List.mem_nil_iff, or_false] at hx
+  rcases hx with h | h
+  · exact h ▸ ht
+  · exact h ▸ hu
+
+theorem G_of_diags (nroot : Nat) (st st' : PState) (hg : G T nroot st)
+    (h : st' = { st with diags := st'.diags }) : Good T nroot st st' := by
+  refine ⟨?_, ?_, ?_⟩
+  · rw [h]; exact G_diags T nroot st _ hg
+  · rw [h]
+  · rw [h]
+
+theorem G_langStack (nroot : Nat) (st : PState) (l : List (Str × Str)) (hg : G T nroot st) :
+    G T nroot { st with langStack := l } :=
+  ⟨⟨hg.flows, hg.macros, hg.envs, hg.gloss⟩, hg.root, hg.inFrame⟩
+
+theorem Good_changeParserLang (nroot : Nat) (st : PState) (l : Str) (back hard : Bool) (hg : G T nroot st) :
+    Good T nroot st (changeParserLang T st l back hard) := by
+  unfold changeParserLang
+  split
+  · split
+    · exact ⟨G_langStack T nroot st _ hg, rfl, rfl⟩
+    · exact Good_refl T nroot st hg
+  · split
+    · exact ⟨G_langStack T nroot st _ hg, rfl, rfl⟩
+    · exact ⟨G_langStack T nroot st _ hg, rfl, rfl⟩
+
+theorem lookupEnv_mem (st : PState) (name : Str) (env : MacroDef) (h : lookupEnv st name = some env) :
+    env ∈ st.envs :=
+  List.mem_of_find?_eq_some h
+
+/-! ### one lemma per branch of the loop -/
+
+section
+variable {nroot fuel : Nat}
+
+theorem br_nil (st : PState) (hg : G T nroot st) (envStop : Option Str) (out : List Tok)
+    (ho : OL T st.latex.length out) :
+    Post ((match removeLines out with
+           | some r => (pure (r, []) : M (List Tok × Buf))
+           | none => M.outOfFuel) st) (SeqQ T nroot st envStop) := by
+  cases hr : removeLines out with
+  | none => exact Post_outOfFuel _ _
+  | some r =>
+    have h := removeLines_OL T _ out r ho hr
+    apply Post_pure
+    exact ⟨Good_refl T nroot st hg, OL_BL T _ _ h, fun t ht => (nomatch ht), fun _ => h⟩
+
+theorem br_begin (IH : AllSpecs T nroot fuel) (st : PState) (hg : G T nroot st)
+    (tok : Tok) (rest : Buf) (envStop : Option Str) (out : List Tok)
+    (ht : BTok T st.latex.length tok) (hr : BL T st.latex.length rest) (ho : OL T st.latex.length out) :
+    Post ((do let r ← beginEnvironment T fuel rest tok false
+              expandSequence T fuel (r.1 ++ r.2) envStop out) st) (SeqQ T nroot st envStop) := by
+  refine Post_bind _ _ _ _ _ (IH.begin_ rest tok false st hg hr ht) ?_
+  rintro r s ⟨g, a, b⟩
+  exact seq_cont T IH.seq g _ _ _ ((BL_append T _ _ _).2 ⟨a, b⟩) ho
+
+theorem br_end (IH : AllSpecs T nroot fuel) (st : PState) (hg : G T nroot st)
+    (tok : Tok) (rest : Buf) (envStop : Option Str) (out : List Tok)
+    (ht : BTok T st.latex.length tok) (hr : BL T st.latex.length rest) (ho : OL T st.latex.length out) :
+    Post ((do let r ← endEnvironment T fuel rest tok envStop
+              if r.1.2 then pure (r.1.1, r.2)
+              else expandSequence T fuel (r.1.1 ++ r.2) envStop out) st) (SeqQ T nroot st envStop) := by
+  refine Post_bind _ _ _ _ _ (IH.end_ rest tok envStop st hg hr ht) ?_
+  rintro r s ⟨g, a, b, c⟩
+  split
+  · next hstop =>
+    apply Post_pure
+    refine ⟨g, a, b, ?_⟩
+    intro hn
+    apply c hstop
+    intro nm hnm
+    rw [hn] at hnm
+    cases hnm
+  · exact seq_cont T IH.seq g _ _ _ ((BL_append T _ _ _).2 ⟨a, b⟩) ho
+
+theorem br_item (IH : AllSpecs T nroot fuel) (st : PState) (hg : G T nroot st)
+    (tok : Tok) (rest : Buf) (envStop : Option Str) (out : List Tok)
+    (ht : BTok T st.latex.length tok) (hr : BL T st.latex.length rest) (ho : OL T st.latex.length out) :
+    Post ((do let r ← expandItem T fuel rest tok out
+              expandSequence T fuel (r.1 ++ r.2) envStop out) st) (SeqQ T nroot st envStop) := by
+  refine Post_bind _ _ _ _ _ (IH.item rest tok out st hg hr ht) ?_
+  rintro r s ⟨g, a, b⟩
+  exact seq_cont T IH.seq g _ _ _ ((BL_append T _ _ _).2 ⟨a, b⟩) ho
+
+theorem br_def (hw : T.WFInv) (IH : AllSpecs T nroot fuel) (st : PState) (hg : G T nroot st)
+    (tok : Tok) (rest : Buf) (envStop : Option Str) (out : List Tok)
+    (ht : BTok T st.latex.length tok) (hr : BL T st.latex.length rest) (ho : OL T st.latex.length out) :
+    Post ((do let r ← parseDefMacro T rest tok.pos
+              expandSequence T fuel r.2 envStop (out ++ r.1)) st) (SeqQ T nroot st envStop) := by
+  refine Post_bind _ _ _ _ _ (parseDefMacro_spec T hw nroot rest tok.pos st hg hr ht.1.1) ?_
+  rintro r s ⟨g, a, b⟩
+  exact seq_cont T IH.seq g _ _ _ b ((OL_append T _ _ _).2 ⟨ho, a⟩)
+
+theorem br_macro (IH : AllSpecs T nroot fuel) (st : PState) (hg : G T nroot st)
+    (tok : Tok) (rest : Buf) (envStop : Option Str) (out : List Tok)
+    (ht : BTok T st.latex.length tok) (hr : BL T st.latex.length rest) (ho : OL T st.latex.length out) :
+    Post ((do let r ← expandMacro T fuel rest tok false
+              expandSequence T fuel (r.1 ++ r.2) envStop out) st) (SeqQ T nroot st envStop) := by
+  refine Post_bind _ _ _ _ _ (IH.macro_ rest tok false st hg hr ht) ?_
+  rintro r s ⟨g, a, b⟩
+  exact seq_cont T IH.seq g _ _ _ ((BL_append T _ _ _).2 ⟨a, b⟩) ho
+
+theorem br_inline (IH : AllSpecs T nroot fuel) (st : PState) (hg : G T nroot st)
+    (tok : Tok) (rest : Buf) (envStop : Option Str) (out : List Tok)
+    (ht : BTok T st.latex.length tok) (hr : BL T st.latex.length rest) (ho : OL T st.latex.length out) :
+    Post ((do let r ← expandInlineMath T fuel rest tok
+              expandSequence T fuel r.2 envStop (out ++ r.1)) st) (SeqQ T nroot st envStop) := by
+  refine Post_bind _ _ _ _ _ (IH.inline rest tok st hg hr ht) ?_
+  rintro r s ⟨g, a, b⟩
+  exact seq_cont T IH.seq g _ _ _ b ((OL_append T _ _ _).2 ⟨ho, a⟩)
+
+theorem br_display (IH : AllSpecs T nroot fuel) (st : PState) (hg : G T nroot st)
+    (tok : Tok) (rest : Buf) (envStop : Option Str) (out : List Tok) (name : Str) (rem : Bool)
+    (ht : BTok T st.latex.length tok) (hr : BL T st.latex.length rest) (ho : OL T st.latex.length out)
+    (hn : (endFuncNames T).contains name = false) :
+    Post ((do let r ← expandDisplayMath T fuel rest tok name rem
+              expandSequence T fuel r.2 envStop (out ++ r.1)) st) (SeqQ T nroot st envStop) := by
+  refine Post_bind _ _ _ _ _ (IH.display rest tok name rem st hg hr ht hn) ?_
+  rintro r s ⟨g, a, b⟩
+  exact seq_cont T IH.seq g _ _ _ b ((OL_append T _ _ _).2 ⟨ho, a⟩)
+
+theorem mathBegin_name (n : Nat) (tok : Tok) (ht : BTok T n tok)
+    (hk : (match tok.kind with | .mathBegin _ => true | _ => false) = true) :
+    (endFuncNames T).contains tok.txt = false := by
+  have h := ht.1.2.2.2
+  unfold mbOk at h
+  cases hkk : tok.kind <;> simp only [hkk] at hk h <;> first | (exact absurd hk (by decide)) | skip
+  simpa using h
+
+theorem br_dollars (IH : AllSpecs T nroot fuel) (st : PState) (hg : G T nroot st)
+    (tok : Tok) (rest : Buf) (envStop : Option Str) (out : List Tok)
+    (ht : BTok T st.latex.length tok) (hr : BL T st.latex.length rest) (ho : OL T st.latex.length out) :
+    Post ((match lookupEnv st T.mathDefaultEnv with
+        | none => (M.fatal "no environment for '$$' or '\\['".toList : M (List Tok × Buf))
+        | some env =>
+          if !env.isEqu then M.fatal (reprStr env.name ++ " is not an EquEnv".toList)
+          else do
+            let r ← expandDisplayMath T fuel rest tok env.name env.remove
+            expandSequence T fuel r.2 envStop (out ++ r.1)) st) (SeqQ T nroot st envStop) := by
+  cases henv : lookupEnv st T.mathDefaultEnv with
+  | none => exact Post_fatal _ _ _
+  | some env =>
+    show Post ((if !env.isEqu then M.fatal (reprStr env.name ++ " is not an EquEnv".toList)
+          else do
+            let r ← expandDisplayMath T fuel rest tok env.name env.remove
+            expandSequence T fuel r.2 envStop (out ++ r.1)) st) (SeqQ T nroot st envStop)
+    split
+    · exact Post_fatal _ _ _
+    · next hequ =>
+      have hm := hg.envs env (lookupEnv_mem st _ env henv)
+      have hn : (endFuncNames T).contains env.name = false := by
+        unfold envOk at hm
+        simp at hequ
+        simp [hequ] at hm
+        simpa using hm.1
+      exact br_display T IH st hg tok rest envStop out env.name env.remove ht hr ho hn
+
+theorem br_accent (IH : AllSpecs T nroot fuel) (st : PState) (hg : G T nroot st)
+    (tok : Tok) (rest : Buf) (envStop : Option Str) (out : List Tok)
+    (ht : BTok T st.latex.length tok) (hr : BL T st.latex.length rest) (ho : OL T st.latex.length out)
+    (hk : tok.kind = .accent) :
+    Post ((do let r ← expandAccent T fuel rest tok
+              expandSequence T fuel r.2 envStop (out ++ r.1)) st) (SeqQ T nroot st envStop) := by
+  refine Post_bind _ _ _ _ _ (IH.accent rest tok st hg hr ht hk) ?_
+  rintro r s ⟨g, a, b⟩
+  exact seq_cont T IH.seq g _ _ _ b ((OL_append T _ _ _).2 ⟨ho, a⟩)
+
+theorem br_newline (hw : T.WFInv) (IH : AllSpecs T nroot fuel) (st : PState) (hg : G T nroot st)
+    (tok : Tok) (rest : Buf) (envStop : Option Str) (out : List Tok)
+    (ht : BTok T st.latex.length tok) (hr : BL T st.latex.length rest) (ho : OL T st.latex.length out) :
+    Post ((do let b ← parseNewlineOption T rest true
+              expandSequence T fuel b envStop (out ++ [mkAction tok.pos, mkTok .space tok.pos [' ']])) st)
+      (SeqQ T nroot st envStop) := by
+  refine Post_bind _ _ _ _ _ (parseNewlineOption_spec T hw rest true st hr) ?_
+  rintro r s ⟨a, b⟩
+  exact seq_cont T IH.seq (G_of_diags T nroot st s hg b) _ _ _ a
+    (OL_snoc2 T _ _ _ _ ho (OTok_mkAction T _ _ ht.1.1) (OTok_mkTok1 T _ _ _ _ ht.1.1 (Or.inr rfl)))
+
+/-- a plain recursive call from the entry state -/
+theorem br_plain (IH : AllSpecs T nroot fuel) (st : PState) (hg : G T nroot st)
+    (buf : Buf) (envStop : Option Str) (out : List Tok)
+    (hr : BL T st.latex.length buf) (ho : OL T st.latex.length out) :
+    Post (expandSequence T fuel buf envStop out st) (SeqQ T nroot st envStop) :=
+  seq_cont T IH.seq (Good_refl T nroot st hg) _ _ _ hr ho
+
+/-- the text token that replaces a special / `\verb` token -/
+theorem OTok_text (n : Nat) (tok : Tok) (v : Str) (ht : TokOk T n tok) (he : extent T tok = v.length) :
+    OTok T n { kind := .text, pos := tok.pos, txt := v, fix := tok.fix } := by
+  refine ⟨⟨ht.1, ?_, rfl, rfl⟩, rfl⟩
+  intro hf
+  have := ht.2.1 hf
+  rw [he] at this
+  exact this
+
+theorem br_special (IH : AllSpecs T nroot fuel) (st : PState) (hg : G T nroot st)
+    (tok : Tok) (rest : Buf) (envStop : Option Str) (out : List Tok)
+    (ht : BTok T st.latex.length tok) (hr : BL T st.latex.length rest) (ho : OL T st.latex.length out)
+    (hk : tok.kind = .special) :
+    Post ((match T.toTables.specialVal tok.txt with
+        | none => (M.crash "parser.py:expand_sequence:special_tokens[tok.txt]" : M (List Tok × Buf))
+        | some v =>
+          expandSequence T fuel rest envStop
+            (out ++ [mkAction tok.pos, { kind := .text, pos := tok.pos, txt := v, fix := tok.fix }])) st)
+      (SeqQ T nroot st envStop) := by
+  cases hv : T.toTables.specialVal tok.txt with
+  | none => exact Post_crash _ _ _
+  | some v =>
+    refine br_plain T IH st hg _ _ _ hr (OL_snoc2 T _ _ _ _ ho (OTok_mkAction T _ _ ht.1.1) ?_)
+    apply OTok_text T _ tok v ht.1
+    simp only [extent, hk, hv, Option.getD_some]
+
+theorem br_verb (hw : T.WFInv) (IH : AllSpecs T nroot fuel) (st : PState) (hg : G T nroot st)
+    (tok : Tok) (rest : Buf) (envStop : Option Str) (out : List Tok)
+    (ht : BTok T st.latex.length tok) (hr : BL T st.latex.length rest) (ho : OL T st.latex.length out)
+    (hk : (match tok.kind with | .verb _ => true | _ => false) = true) :
+    Post ((if tok.kind == .verb true then
+          expandSequence T fuel (expandVerbEnvToken tok ++ rest) envStop out
+        else
+          expandSequence T fuel rest envStop
+            (out ++ [mkAction tok.pos, { kind := .text, pos := tok.pos, txt := tok.txt, fix := tok.fix }])) st)
+      (SeqQ T nroot st envStop) := by
+  split
+  · next h =>
+    have h' : tok.kind = .verb true := by simpa using h
+    exact br_plain T IH st hg _ _ _ ((BL_append T _ _ _).2 ⟨expandVerbEnvToken_BL T hw _ tok ht h', hr⟩) ho
+  · next h =>
+    refine br_plain T IH st hg _ _ _ hr (OL_snoc2 T _ _ _ _ ho (OTok_mkAction T _ _ ht.1.1) ?_)
+    apply OTok_text T _ tok tok.txt ht.1
+    have h' : tok.kind ≠ .verb true := by simpa using h
+    cases hkk : tok.kind <;> simp only [hkk] at hk <;> first | (exact absurd hk (by decide)) | skip
+    next b =>
+      cases b
+      · simp only [extent, hkk]
+      · exact absurd hkk h'
+
+theorem lang_outKind (tok : Tok) (hk : (match tok.kind with | .lang .. => true | _ => false) = true) :
+    outKind tok = true := by
+  unfold outKind
+  cases hkk : tok.kind <;> simp only [hkk] at hk ⊢ <;> exact absurd hk (by decide)
+
+theorem br_lang (IH : AllSpecs T nroot fuel) (st : PState) (hg : G T nroot st)
+    (tok : Tok) (rest : Buf) (envStop : Option Str) (out : List Tok)
+    (ht : BTok T st.latex.length tok) (hr : BL T st.latex.length rest) (ho : OL T st.latex.length out)
+    (hk : (match tok.kind with | .lang .. => true | _ => false) = true) :
+    Post ((if st.multiLanguage then do
+          match tok.kind with
+          | .lang l back hard _ => M.modify (fun s => changeParserLang T s l back hard)
+          | _ => pure ()
+          expandSequence T fuel rest envStop (out ++ [tok])
+        else expandSequence T fuel rest envStop out) st)
+      (SeqQ T nroot st envStop) := by
+  have hot : OL T st.latex.length (out ++ [tok]) := OL_snoc T _ _ _ ho ⟨ht.1, lang_outKind tok hk⟩
+  split
+  · split
+    · next l back hard brk hkk =>
+      refine Post_bind _ _ _ (fun _ s => Good T nroot st s) _ ?_ ?_
+      · apply Post_modify
+        exact Good_changeParserLang T nroot st l back hard hg
+      · intro _ s g
+        exact seq_cont T IH.seq g _ _ _ hr hot
+    · exact br_plain T IH st hg _ _ _ hr hot
+  · exact br_plain T IH st hg _ _ _ hr ho
+
+theorem br_active (IH : AllSpecs T nroot fuel) (st : PState) (hg : G T nroot st)
+    (tok : Tok) (rest : Buf) (envStop : Option Str) (out : List Tok)
+    (ht : BTok T st.latex.length tok) (hr : BL T st.latex.length rest) (ho : OL T st.latex.length out)
+    (hk : outKind tok = true) :
+    Post (expandSequence T fuel (expandShortMacro T st tok rest).2 envStop
+            (out ++ [(expandShortMacro T st tok rest).1]) st)
+      (SeqQ T nroot st envStop) := by
+  have h := expandShortMacro_spec T _ st tok rest ht hk hr
+  exact br_plain T IH st hg _ _ _ h.2 (OL_snoc T _ _ _ ho h.1)
+
+/-- after the branches for the consumed classes, the token is of an output class -/
+theorem outKind_of_not (tok : Tok) (hm : isMathTok tok = false)
+    (h1 : ¬ (tok.kind == .xbegin) = true) (h2 : ¬ (tok.kind == .xend) = true)
+    (h3 : ¬ (tok.kind == .item) = true) (h4 : ¬ (tok.kind == .xmacro) = true)
+    (h5 : ¬ (match tok.kind with | .mathBegin _ => true | _ => false) = true)
+    (h6 : ¬ (tok.kind == .accent) = true) (h7 : ¬ (tok.kind == .special) = true)
+    (h8 : ¬ (match tok.kind with | .verb _ => true | _ => false) = true) :
+    outKind tok = true := by
+  unfold outKind
+  unfold isMathTok at hm
+  cases hkk : tok.kind <;> simp_all
+
+end
+
+/-! ### the main loop -/
+
 theorem seq_step (hw : T.WFInv) (nroot fuel : Nat) (IH : AllSpecs T nroot fuel) :
     SpecSeq T nroot (fuel + 1) := by
-  sorry
+  intro buf envStop out st hg hb ho
+  show Post _ (SeqQ T nroot st envStop)
+  cases buf with
+  | nil =>
+    rw [expandSequence.eq_2]
+    exact br_nil T st hg envStop out ho
+  | cons tok rest =>
+    have ht : BTok T st.latex.length tok := hb tok (List.mem_cons_self ..)
+    have hr : BL T st.latex.length rest := fun t h => hb t (List.mem_cons_of_mem _ h)
+    rw [expandSequence.eq_3]
+    refine Post_bind _ _ _ (fun a s => a = st ∧ s = st) _ (Post_get _ _ ⟨rfl, rfl⟩) ?_
+    rintro _ _ ⟨rfl, rfl⟩
+    refine Post_ite _ _ _ _ _ (fun _ => br_begin T IH _ hg tok rest envStop out ht hr ho) (fun h1 => ?_)
+    refine Post_ite _ _ _ _ _ (fun _ => br_end T IH _ hg tok rest envStop out ht hr ho) (fun h2 => ?_)
+    refine Post_ite _ _ _ _ _ (fun _ => br_item T IH _ hg tok rest envStop out ht hr ho) (fun h3 => ?_)
+    refine Post_ite _ _ _ _ _ (fun _ => Post_ite _ _ _ _ _
+      (fun _ => br_def T hw IH _ hg tok rest envStop out ht hr ho)
+      (fun _ => br_macro T IH _ hg tok rest envStop out ht hr ho)) (fun h4 => ?_)
+    refine Post_ite _ _ _ _ _ (fun _ => br_inline T IH _ hg tok rest envStop out ht hr ho) (fun _ => ?_)
+    refine Post_ite _ _ _ _ _ (fun hk =>
+      br_display T IH _ hg tok rest envStop out _ _ ht hr ho (mathBegin_name T _ tok ht hk)) (fun h5 => ?_)
+    refine Post_ite _ _ _ _ _ (fun _ => br_dollars T IH _ hg tok rest envStop out ht hr ho) (fun _ => ?_)
+    refine Post_ite _ _ _ _ _ (fun hk =>
+      br_accent T IH _ hg tok rest envStop out ht hr ho (by simpa using hk)) (fun h6 => ?_)
+    refine Post_ite _ _ _ _ _ (fun _ => br_newline T hw IH _ hg tok rest envStop out ht hr ho) (fun _ => ?_)
+    refine Post_ite _ _ _ _ _ (fun _ =>
+      br_plain T IH _ hg _ _ _ hr (OL_snoc T _ _ _ ho (OTok_mkAction T _ _ ht.1.1))) (fun _ => ?_)
+    refine Post_ite _ _ _ _ _ (fun hk =>
+      br_special T IH _ hg tok rest envStop out ht hr ho (by simpa using hk)) (fun h7 => ?_)
+    refine Post_ite _ _ _ _ _ (fun hk => br_verb T hw IH _ hg tok rest envStop out ht hr ho hk) (fun h8 => ?_)
+    refine Post_ite _ _ _ _ _ (fun hk => br_lang T IH _ hg tok rest envStop out ht hr ho hk) (fun _ => ?_)
+    have hok : outKind tok = true := outKind_of_not tok ht.2 h1 h2 h3 h4 h5 h6 h7 h8
+    refine Post_ite _ _ _ _ _ (fun _ => br_active T IH _ hg tok rest envStop out ht hr ho hok) (fun _ => ?_)
+    refine Post_ite _ _ _ _ _ (fun _ => br_plain T IH _ hg _ _ _ hr ho) (fun _ => ?_)
+    exact br_plain T IH _ hg _ _ _ hr (OL_snoc T _ _ _ ho ⟨ht.1, hok⟩)
 
 end Yalafi
